@@ -114,11 +114,16 @@ SHAPES = {
     "rec_bool_ord": ("r = record { a: bool; } deriving(ord)", "compile:ord-over-bool-or-optional"),
     "rec_empty_eq": ("r = record { } deriving(eq)", None),
     "rec_opt_enum": ("e = enum {a;}\nr = record { a: e?; b: list<e?>; }", "compile:optional-enum-across-jni"),
-    "iface_opt_prim": ("i = interface +cpp { m(a: i32?) -> i32?; }", "compile:optional-primitive-across-cpp-proxy"),
+    "iface_opt_prim": ("i = interface +cpp { m(a: i32?) -> i32?; }", None),
+    "iface_opt_prim_java": ("i = interface +java { m(a: i32?) -> i32?; }", None),
     "iface_java_string": ("i = interface +java { n(s: string) -> string; }", "compile:java-proxy-returns-string-like"),
-    "iface_async_cpp": ("i = interface +cpp { async m(a: i32) -> i32; }", "compile:async"),
+    "iface_async_cpp": ("i = interface +cpp { async m(a: i32) -> i32; }", None),
+    "iface_async_both": ("i = interface { async m(a: i32) -> i32; }", None),
+    "iface_async_throws": ("err = error { a; }\ni = interface +cpp { async m() throws err -> string; }", None),
+    "iface_async_rec": ("r = record {a: i32;}\ni = interface +cpp { async m() -> r; async l() -> list<r>; }", None),
+    "iface_async_java": ("i = interface +java { async m(a: i32) -> i32; }", "compile:async-on-non-cpp-interface"),
     "iface_async_void": ("i = interface +cpp { async n(); }", "undefined:async-without-return"),
-    "fn_opt_ret": ("f = function (a: i32) -> bool?;", "compile:optional-primitive-across-cpp-proxy"),
+    "fn_opt_ret": ("f = function (a: i32?) -> bool?;", None),
     "kw_enum_null": ("e = enum { null; }", None),
     "map_key_rec": ("r = record { a: i32; } deriving(eq)\ns = record { m: map<r, i32>; }", "compile:record-as-hash-key"),
     "generic_bare": ("r = record { a: list; }", "compile:generic-without-arguments"),
@@ -184,13 +189,10 @@ def classify(ast) -> list[str]:
                 sig = [p["t"] for p in m["params"]] + ([m["ret"]] if m["ret"] else [])
                 alltypes += sig
                 if m["async"]:
-                    keys.add("compile:async")
+                    if "cpp" not in d["targets"]:
+                        keys.add("compile:async-on-non-cpp-interface")
                     if m["ret"] is None:
                         keys.add("undefined:async-without-return")
-                if "cpp" in d["targets"]:
-                    for t in sig:
-                        if "fn" not in t and t["o"] and t["n"] in PRIM:
-                            keys.add("compile:optional-primitive-across-cpp-proxy")
                 if set(d["targets"]) - {"cpp"}:
                     r = m["ret"]
                     if r is not None and "fn" not in r and r["n"] in ("string", "binary", "date"):
@@ -202,8 +204,6 @@ def classify(ast) -> list[str]:
             if set(f["targets"]) - {"cpp"} and f["ret"] is not None and "fn" not in f["ret"] and f["ret"]["n"] in ("string", "binary", "date"):
                 keys.add("compile:java-proxy-returns-string-like")
             for t in sig:
-                if "fn" not in t and t["o"] and t["n"] in PRIM:
-                    keys.add("compile:optional-primitive-across-cpp-proxy")
                 def selfref(t, me=d):
                     if by_name.get(t["n"].lstrip(".")) is me:
                         keys.add("crash:self-referential-function-type")
